@@ -212,7 +212,8 @@ fn spelled_strategy() -> BoxedStrategy<Case> {
       ),
       0..=8,
     ),
-    vec(0u8..4u8, 0..=40),
+    // redundant continuation digits per number: mostly 0-3, now and then 40-70 (far beyond any value's own length)
+    vec(prop_oneof![30 => 0u8..4u8, 1 => 40u8..70u8], 0..=40),
     vec((any::<u16>(), any::<bool>()), 0..=4),
   )
     .prop_map(|(raw, redundant, extra)| {
